@@ -204,7 +204,11 @@ def write_market(market, dirpath, only=None):
             f.write(csv_text(rows))
 
 
-def scratch_dir():
+DIR_SUFFIXES = ["", "", "", "", "", "[2020]", " [daily] bars", "*?", "{a,b}", "%s", "~"]
+
+
+def scratch_dir(suffix=""):
+    """A fresh directory; `suffix` lets a plan ask for a name with blanks or pattern characters in it."""
     import tempfile
     base = "/dev/shm" if os.path.isdir("/dev/shm") else None
-    return tempfile.mkdtemp(prefix="qsim-", dir=base)
+    return tempfile.mkdtemp(prefix="qsim-", suffix=suffix or "", dir=base)
